@@ -20,8 +20,10 @@ def gen_cfg(rng, max_vars=4, adversarial=None, eps=True, max_prods=8):
         vs = vs[:max(1, nv - k)] + rng.sample(ADV_VARS, k)
         if rng.random() < 0.5:
             ts = ts[:max(1, nt - 1)] + rng.sample(ADV_TERS, 1)
-        # never a terminal and a variable with the same value in the main stream (defect D08: hangs)
-        ts = [t for t in ts if t not in vs] or ["a"]
+        if rng.random() < 0.3:
+            # a terminal and a variable with the same value are different symbols (repaired: Variable.__eq__)
+            # (not a name ending in #CNF#: which of two terminals gets the shorter lifted name depends on set order)
+            ts = ts + [rng.choice([v for v in vs if "#CNF#" not in v] or ["S"])]
     nprod = rng.randint(1, max_prods)
     prods = []
     for _ in range(nprod):
